@@ -30,8 +30,9 @@ from vmon.oracles import files, so3
 PROP = "C19"
 RULE = ("cases = paired entry/exit particle lists (2..60 particles, 1..3 tomograms) assembled from constructed spatial gadgets "
         "(chains started in the middle, heads competing for one tail, exits with two candidate entries, prefix cut / reject, "
-        "suffix after a cut, both-sided joins with and without cut, chains bending back onto themselves, closed rings, candidates "
-        "inside min_distance) and random dense clusters, each under a random rigid motion, row interleaving, id/index/"
+        "suffix after a cut, both-sided joins with and without cut, tail cuts alone / after / together with a both-sided join, chains bending "
+        "back onto themselves, closed rings, candidates inside min_distance), hub explorers (late suitors, random candidate forests) and "
+        "random dense clusters, each under a random rigid motion, row interleaving, id/index/"
         "input-form presentation, with max_distance 4..60 and min_distance 0 or 5..45% of it; non-trivial = at least one "
         "exit->entry candidate pair lies in (min, max]; distinct by digest of (class, variant, n, tomograms, distances, "
         "presentation, gadget tags, first coordinates)")
